@@ -20,7 +20,8 @@ META = {
         'before the store; the validating containers call their validator first; only __init__/_assert_version write '
         'the version.  (D3) gate agreement: every gate has the form norm(version) < VER_3_0 => refuse with the same '
         'normaliser (Version.nearest), operator and constant.  (D4) detect-or-validate logic: raise iff a version was '
-        'given, otherwise upgrade.  Not decided: sequences of mutations as executions (covered inductively by D2+D4).'),
+        'given, otherwise upgrade.  Not decided: sequences of mutations as executions (covered inductively by D2+D4).'
+        ' Also (D2): a derived grid whose rows are stored without validation (result._row = ...) is created with self.version / self._version.'),
     'rule_text': 'obligations = 5 kinds x 5 sites, entry paths, gate comparisons, logic facts',
     'trusted_base': ['MutableMapping.update/setdefault reduce to __setitem__; MutableSequence.append/extend/+= reduce to insert'],
 }
@@ -553,6 +554,42 @@ def _entry_paths(ctx, m):
     else:
         ctx.ob('C10.D2', 'metadata and column containers are only created in Grid.__init__, bound to the grid\'s own validator', True,
                'hszinc/grid.py')
+    # a derived grid that is handed rows WITHOUT validation (result._row = ...) never re-detects: it must be created
+    # with the version the parent has reached (self.version / self._version), not with the version the parent was given
+    gm = m.methods('grid', 'Grid')
+    n_derived = 0
+    for name, fn_ in sorted(gm.items()):
+        for st in walk_no_nested(fn_):
+            if not (isinstance(st, ast.Assign) and len(st.targets) == 1 and isinstance(st.targets[0], ast.Name)
+                    and isinstance(st.value, ast.Call)):
+                continue
+            rn = st.targets[0].id
+            ctor = None
+            if norm(st.value.func) == 'Grid':
+                ctor = st.value
+            elif isinstance(st.value.func, ast.Attribute) and norm(st.value.func.value) == 'self' and st.value.func.attr in gm \
+                    and not st.value.args and not st.value.keywords:
+                rets = [r.value for r in walk_no_nested(gm[st.value.func.attr]) if isinstance(r, ast.Return) and r.value is not None]
+                if len(rets) == 1 and isinstance(rets[0], ast.Call) and norm(rets[0].func) == 'Grid':
+                    ctor = rets[0]
+            if ctor is None:
+                continue
+            raw = [x for x in walk_no_nested(fn_) if isinstance(x, ast.Assign) and any(norm(t) == '%s._row' % rn for t in x.targets)]
+            if not raw:
+                continue
+            n_derived += 1
+            kw = {kk.arg: norm(kk.value) for kk in ctor.keywords}
+            ver = kw.get('version', norm(ctor.args[0]) if ctor.args else None)
+            if ver in ('self.version', 'self._version'):
+                ctx.ob('C10.D2', 'Grid.%s: the grid that receives rows unvalidated (`%s`) is created with the parent\'s current version'
+                       % (name, norm(raw[0])), True, '%s:%d' % (F, st.lineno))
+            else:
+                ctx.violation('C10.D2', '%s::Grid.%s' % (F, name), norm(ctor),
+                              'g = Grid(); g.append({"v": NA}) (g now reports 3.0); g[0:1] is created with version `%s` and its rows are '
+                              'stored with `%s`, without detection: the slice reports 2.0 while holding the 3.0-only value' % (ver, norm(raw[0])),
+                              'a derived grid whose rows bypass validation is not created with self.version', file=F, line=st.lineno,
+                              engine='E7')
+    ctx.count('derived grids filled without validation', n_derived)
     for name in ('insert', '__setitem__'):
         if ctx.facts.get('validates:%s' % name):
             ctx.ob('C10.D2', 'Grid.%s validates every value of the row before storing it' % name, True)
